@@ -33,6 +33,23 @@ func (j *judge) explore(nodes map[string]*node, bp BatchProject, seed, pidx uint
 			p := pl.build(ri, "valid-adventurous", nil, true)
 			add(p)
 		}
+		// value sweep: every value class of every non-body parameter once, all else plain
+		for _, prm := range rt.M.Params {
+			if prm.Loc == "context" || prm.Loc == "body" || prm.Type.Kind == "enum" {
+				continue
+			}
+			for _, c := range candidates(prm.Type.Prim, prm.Loc) {
+				if !c.OK || c.Class == "plain" {
+					continue
+				}
+				if prm.Validate != "" {
+					if sat, known := satisfies(prm.Validate, prm.Type.Prim, c.Canon, true); !known || !sat {
+						continue
+					}
+				}
+				add(pl.buildForced(ri, "value-sweep", nil, false, map[string][]WireVal{prm.GoName: {c}}))
+			}
+		}
 		// per-parameter damage
 		for _, prm := range rt.M.Params {
 			if prm.Loc == "context" {
@@ -99,6 +116,32 @@ func (j *judge) explore(nodes map[string]*node, bp BatchProject, seed, pidx uint
 			}
 			add(p)
 		}
+		// a response payload that violates its own field validators (only matters with validateResponsePayload)
+		if rt.M.Ret == "value" && rt.M.RetType.Kind == "struct" && !rt.M.RetType.Slice {
+			bg := &bodyGen{p: bp.Project, r: r, violate: true}
+			t := rt.M.RetType
+			t.Ptr = false
+			js := bg.valueJSON(t, "", 0)
+			if bg.violated != "" {
+				p := pl.build(ri, "controller-script", nil, false)
+				p.Ctl = CtlScript{RetJSON: js}
+				p.Tags = append(p.Tags, "invalid-response-payload")
+				add(p)
+			}
+		}
+		// a request body that violates a top-level field validator of the body struct
+		for _, prm := range rt.M.Params {
+			if prm.Loc == "body" && prm.Type.Kind == "struct" && !prm.Type.Slice {
+				bg := &bodyGen{p: bp.Project, r: r, violate: true}
+				t := prm.Type
+				t.Ptr = false
+				js := bg.valueJSON(t, "", 0)
+				if bg.violated != "" {
+					p := pl.buildForced(ri, "damaged", map[string]string{prm.GoName: "garble"}, false, map[string][]WireVal{prm.GoName: {{Raw: js, Class: "field-violates-validator"}}})
+					add(p)
+				}
+			}
+		}
 		// (c) stray requests
 		for _, k := range strayKinds {
 			add(pl.stray(ri, k))
@@ -151,9 +194,17 @@ func (j *judge) explore(nodes map[string]*node, bp BatchProject, seed, pidx uint
 		}
 	}
 
-	// sequential: each plan alone
+	// probe phase: the plain well-formed request of every route first (an engine that does not serve a
+	// route at all is reported once and excluded for that route), then every other plan alone
 	for i, p := range plans {
-		j.execGroup(nodes, []*ReqPlan{p}, seed^uint64(i)*0x9e3779b97f4a7c15)
+		if p.Class == "valid" {
+			j.execGroup(nodes, []*ReqPlan{p}, seed^uint64(i)*0x9e3779b97f4a7c15)
+		}
+	}
+	for i, p := range plans {
+		if p.Class != "valid" {
+			j.execGroup(nodes, []*ReqPlan{p}, seed^uint64(i)*0x9e3779b97f4a7c15)
+		}
 	}
 	// (d) concurrent groups: 2-4 requests in flight, to the same and to different routes
 	nGroups := len(plans) / 3
